@@ -101,6 +101,8 @@ def slim(rec):
     if isinstance(spec, dict) and isinstance(spec.get("nodes"), list):
         out["pipeline_spec_canonical"] = {"nodes": [{"node_uuid": n.get("node_uuid")} if isinstance(n, dict) else n
                                                      for n in spec["nodes"]]}
+        if "edges" in spec:     # (nothing of it may reach a verdict; kept so that a replay holds what the runtime wrote)
+            out["pipeline_spec_canonical"]["edges"] = spec["edges"]
     elif "pipeline_spec_canonical" in rec:
         out["pipeline_spec_canonical"] = spec
     return out
@@ -132,12 +134,15 @@ def make_world_inproc(rng, idx, base):
     from semantiva.trace.runtime import RunSpaceLaunchManager, RunSpaceTraceEmitter, TraceContext
     d = os.path.join(base, "w%d" % idx)
     os.makedirs(d)
-    kind = ["single_ok", "single_fail", "launch_ok", "launch_fail_continue", "launch_fail_abort"][idx % 5] if idx < 10 \
-        else rng.choice(["single_ok", "single_fail", "launch_ok", "launch_fail_continue", "launch_fail_abort"])
+    KINDS = ["single_ok", "single_fail", "launch_ok", "launch_fail_continue", "launch_fail_abort", "single_one_node_ok", "single_one_node_fail"]
+    kind = KINDS[idx % 7] if idx < 14 else rng.choice(KINDS)
     drv = JsonlTraceDriver(output_path=os.path.join(d, "trace"))
     outcomes = []
     if kind.startswith("single"):
         nodes = gen_nodes(rng, d, fail_at=(rng.randint(1, 4) if kind == "single_fail" else None))
+        if "one_node" in kind:      # a pipeline of exactly one node (its graph has no edge); failing: the node lacks its parameter
+            from semantiva.examples import test_utils as tu
+            nodes = [{"processor": tu.FloatValueDataSource, "parameters": {"value": 2.0} if kind.endswith("ok") else {}}]
         p = Pipeline(nodes, trace=drv)
         try:
             p.process(Payload(NoDataType(), ContextType({})))
